@@ -150,6 +150,24 @@ func c05Gen(tier string, rng *rand.Rand) []mCase {
 			}
 		}
 	}
+	// a RECURSIVE struct type (the test IDL's Rec { 0 require int id; 1 optional vector<Rec> kids; ... }): every nesting
+	// level announces as many elements as bytes are left at that level - each count passes the generated check, together
+	// they add up quadratically (known finding decode/over-allocation/recursive-type)
+	for _, b := range bases {
+		if b.e.name != "verifidl.Rec" {
+			continue
+		}
+		const L = 4000
+		var bs []byte
+		for len(bs)+8 <= L { // 0c: id = 0; 19: kids LIST; 02 nnnnnnnn: count; 0a: first element StructBegin
+			rem := L - len(bs) - 7
+			bs = append(bs, 0x0c, 0x19, 0x02, byte(rem>>24), byte(rem>>16), byte(rem>>8), byte(rem), 0x0a)
+		}
+		c := mkS(b, "nested-counts", fmt.Sprintf("%d levels of (id = 0; kids: LIST of as many elements as bytes are left; first element ...)", L/8), bs)
+		c.sigHint = "recursive-type"
+		cs = append(cs, c)
+		break
+	}
 	// nesting bombs and random bytes, through a few struct types
 	var pkt []base
 	for _, b := range bases {
